@@ -127,6 +127,12 @@ func frame(vm *goja.Runtime, k string, next goja.Value, id int, obs *[]string, n
 		case *goja.Exception, *goja.InterruptedError, *goja.StackOverflowError:
 			panic(err)
 		}
+		// (an uncatchable condition stays what it is however many Go frames wrapped it)
+		var ie *goja.InterruptedError
+		var so *goja.StackOverflowError
+		if errors.As(err, &ie) || errors.As(err, &so) {
+			panic(err)
+		}
 		panic(vm.NewGoError(err))
 	}
 	switch k {
@@ -152,7 +158,10 @@ func frame(vm *goja.Runtime, k string, next goja.Value, id int, obs *[]string, n
 	case "reflectWrap":
 		return vm.ToValue(func() (goja.Value, error) {
 			v, err := nextC(goja.Undefined())
-			if _, ok := err.(*goja.Exception); ok {
+			var ie *goja.InterruptedError
+			var so *goja.StackOverflowError
+			if _, ok := err.(*goja.Exception); ok || errors.As(err, &ie) || errors.As(err, &so) {
+				// (a wrapped interrupt / stack overflow must stay uncatchable: the spec's Cross leaves such a payload unchanged)
 				return nil, fmt.Errorf("rewrap: %w", err)
 			}
 			rethrow(err)
